@@ -12,7 +12,7 @@ ID = 'C20'
 RULE = ('region of 4 cells (2x2) x 2 magnitude bins; gridded forecasts = 4 rate arrays (distinct rates, one with a zero bin); '
         'observed catalogs = 5 multisets of 2..4 events; catalog forecasts = 4 sequences of J<=3 synthetic catalogs; for every '
         'input ALL permutations of the observed events (N<=4: up to 24), ALL permutations of the synthetic catalogs (J<=3) and '
-        'ALL 24 permutations of the region cells together with the forecast rows are run through every public test of '
+        'ALL 24 permutations of the region cells together with the forecast rows (Cartesian regions built in memory, a quadtree region with observed events on shared tile edges, and forecasts loaded from generated files whose cell blocks are written in every order) are run through every public test of '
         'poisson_evaluations (7), binomial_evaluations (4), brier_evaluations (1) and catalog_evaluations (6). A variant is '
         'non-trivial iff the permutation is not the identity; variants are distinct by construction.')
 ASSUMPTIONS = ['observed statistics and analytic quantiles must agree to rounding (rtol 1e-12); simulation-free test distributions '
@@ -47,6 +47,13 @@ def cases(tier, seed):
     for ci in range(len(CFS)):
         for oi in range(len(OBS)):
             yield dict(kind='catalog', c=ci, o=oi)
+    # the same permutation families on a quadtree region (events on shared tile edges) and on forecasts LOADED from
+    # generated files whose cell blocks are written in every order
+    for fi in range(len(RATES)):
+        for oi in range(len(QOBS)):
+            yield dict(kind='gridded', f=fi, g=(fi + 1) % len(RATES), o=oi, backend='quadtree')
+        for oi in (0, 2, 3):
+            yield dict(kind='gridded', f=fi, g=(fi + 1) % len(RATES), o=oi, backend='file')
     if tier == 'quick':
         yield dict(kind='gridded', f=seed % 4, g=(seed + 2) % 4, o=seed % 5)     # a further forecast pairing selected by the seed
     else:
@@ -54,6 +61,29 @@ def cases(tier, seed):
             for gi in range(len(RATES)):
                 if gi != (fi + 1) % len(RATES) and gi != fi:
                     yield dict(kind='gridded', f=fi, g=gi, o=2)
+
+
+QKEYS = ['0', '1', '2', '3']
+# quadtree observations: (lon, lat, magnitude bin); several lie exactly on an edge shared by two tiles
+QPOS = [(-90.0, 45.0), (90.0, 45.0), (-90.0, -45.0), (90.0, -45.0), (0.0, 10.0), (-90.0, 0.0), (90.0, 0.0), (0.0, 0.0)]
+QOBS = [[(0, 0), (3, 1)], [(4, 0), (5, 1), (1, 0)], [(6, 1), (7, 0), (2, 1), (5, 0)], [(5, 0), (5, 1), (6, 0)]]
+
+
+def qregion(perm):
+    from csep.core.regions import QuadtreeGrid2D
+    return QuadtreeGrid2D.from_quadkeys([QKEYS[i] for i in perm], magnitudes=numpy.array(MAGS))
+
+
+def qevents(pairs, base=0):
+    return [(f'e{base + i}', 1262304000000 + 1000 * (base + i), QPOS[p][1], QPOS[p][0], 10.0, MAGS[k] + 0.5) for i, (p, k) in enumerate(pairs)]
+
+
+def write_dat(path, rates, perm):
+    with open(path, 'w') as fh:
+        for i in perm:
+            x0, y0 = ORIGINS[i]
+            for k, m in enumerate(MAGS):
+                fh.write('\t'.join([repr(x0), repr(round(x0 + 0.1, 10)), repr(y0), repr(round(y0 + 0.1, 10)), '0.0', '30.0', repr(m), repr(m + 1.0), repr(rates[i][k]), '1']) + '\n')
 
 
 def region(perm):
@@ -127,25 +157,55 @@ def run_case(case):
     only = case.get('only')
 
     def report(site, what, kind_, detail, extra):
-        failures.append(Fail(f'{site}|{what}|{kind_}', detail, dict(case, only=dict(site=site, **extra))))
+        failures.append(Fail(f'{site}|{what}|{kind_}' + ('' if case.get('backend', 'cartesian') == 'cartesian' else ',' + case['backend']), detail,
+                             dict(case, only=dict(site=site, **extra))))
 
     if case['kind'] == 'gridded':
         rf, rg = RATES[case['f']], RATES[case['g']]
         tests = gridded_tests()
         base = {}
-        reg0 = region(ident)
+        backend = case.get('backend', 'cartesian')
+        if backend == 'quadtree':
+            obs_pairs = QOBS[case['o']]
+            region_ = qregion
+            events_ = qevents
+            gfc_ = gfc
+        elif backend == 'file':
+            import csep
+            import os as _os
+            wd = fixtures.workdir()
+
+            def region_(perm):
+                return perm            # the region comes with the loaded forecast
+
+            def gfc_(rates, perm, reg, name):
+                path = _os.path.join(wd, f'c20_{_os.getpid()}_{name}.dat')
+                write_dat(path, rates, perm)
+                fc = csep.load_gridded_forecast(path, start_date=T0, end_date=T1, name=name)
+                _os.remove(path)
+                return fc
+            events_ = events
+        else:
+            region_, events_, gfc_ = region, events, gfc
+
+        def trio(perm, evs=None):
+            reg = region_(perm)
+            fa, fb = gfc_(rf, perm, reg, 'A'), gfc_(rg, perm, reg, 'B')
+            r = fa.region if backend == 'file' else reg
+            return fa, fb, fixtures.catalog(evs if evs is not None else events_(obs_pairs), region=r)
+        reg0 = None
         for site, fn, kind_ in tests:
-            base[site] = call(fn, gfc(rf, ident, reg0, 'A'), gfc(rg, ident, reg0, 'B'), fixtures.catalog(events(obs_pairs), region=reg0))
+            base[site] = call(fn, *trio(ident))
             hsh.update(repr(base[site]).encode())
             evals += 1
         # (a) all permutations of the observed events
         for p in sorted(set(itertools.permutations(range(len(obs_pairs))))):
-            ev = events(obs_pairs)
+            ev = events_(obs_pairs)
             evp = [ev[i] for i in p]
             states += 1
             nontriv += (p != tuple(range(len(obs_pairs))))
             for site, fn, kind_ in tests:
-                got = call(fn, gfc(rf, ident, reg0, 'A'), gfc(rg, ident, reg0, 'B'), fixtures.catalog(evp, region=reg0))
+                got = call(fn, *trio(ident, evp))
                 evals += 1
                 want = base[site]
                 if 'exc' in (got or {}) or 'exc' in (want or {}):
@@ -159,11 +219,10 @@ def run_case(case):
                     report(site, 'statistic-changes-with-observed-event-order', 'events', f'perm {p}: {got} vs {want}', dict(perm=list(p), what='events'))
         # (b) all permutations of the cells, forecast rows permuted consistently
         for perm in itertools.permutations(range(4)):
-            reg = region(perm)
             states += 1
             nontriv += (perm != ident)
             for site, fn, kind_ in tests:
-                got = call(fn, gfc(rf, perm, reg, 'A'), gfc(rg, perm, reg, 'B'), fixtures.catalog(events(obs_pairs), region=reg))
+                got = call(fn, *trio(perm))
                 evals += 1
                 want = base[site]
                 if 'exc' in (got or {}) or 'exc' in (want or {}):
